@@ -847,6 +847,8 @@ fn error_encoder(cx: &mut Ctx) {
 #[cfg(not(verif_h1c))]
 fn error_encoder(cx: &mut Ctx) {
     cx.out.count("hook-h1c-absent");
+    cx.out.violation("C15:coverage:hook-h1c-absent", "the harness was built without hook H1c (verif_hooks::encode_reply / encode_error_reply, SimulatedConnection::verif_encode_resp): the connection handler's private encoder, its error encoder and the simulated connection's encoder are not driven on arbitrary values",
+        json!({"looked_for": "pub fn encode_reply in <redis-sim>/src/production/mod.rs (harness/build.rs)"}));
 }
 
 // ---------------------------------------------------------------- generators
